@@ -9,7 +9,7 @@ GenNext ==
     /\ \/ /\ LinkDown /\ hist' = Append(hist, [op |-> "down", side |-> "", id |-> "", del |-> FALSE, n |-> 0])
        \/ /\ LinkUp /\ hist' = Append(hist, [op |-> "up", side |-> "", id |-> "", del |-> FALSE, n |-> 0])
        \/ \E s \in Sides, i \in Idents, del \in BOOLEAN :
-             /\ (i.k = "pt" => ~del)
+             /\ (i.k # "tomb" => ~del)
              \* a node is only written to / deleted where it is currently visible (C02: "nodes visible there")
              /\ Visible(s, i.e) \/ (i.k = "tomb" /\ ~del /\ Visible(s, ParentOf[i.e]))
              /\ Write(s, i, del)
